@@ -6,6 +6,7 @@ From Coq Require Import List ZArith NArith String Bool Lia.
 From SCC Require Import Base.Sexp Lang.CoreSyn Sem.AxSem Sem.CoreSem Model.Backend Model.Uniquify Model.FocusCheck
      Proof.CoreInd Proof.SubstProof Proof.UniquifyProof Proof.FocusExtra Proof.FocusKont
      Proof.UqSubst Proof.UqAeq Proof.UqProof Proof.UqMain Proof.UqSim.
+From SCC Require Import Model.FocusGuard.
 Import ListNotations.
 Open Scope list_scope.
 Open Scope N_scope.
